@@ -52,9 +52,26 @@ structure RawMat where
   nrows : Nat
   ncols : Nat
   w : Nat → Nat → Nat
+  /-- the sparse container may carry explicitly STORED zeros (entries scipy.csgraph reads as edges of weight 0) -/
+  storedZeros : Bool := false
 
 def RawMat.graph (m : RawMat) : Graph := ⟨m.nrows, m.w⟩
-def RawMat.ofGraph (g : Graph) : RawMat := ⟨.csr, g.n, g.n, g.w⟩
+def RawMat.ofGraph (g : Graph) : RawMat := ⟨.csr, g.n, g.n, g.w, false⟩
+
+/-- `(A != A.T).nnz` / `np.count_nonzero(A != A.T)` : the number of positions where the matrix differs from its transpose -/
+def Graph.asymCount (g : Graph) : Nat :=
+  ((List.range g.n).flatMap fun i => (List.range g.n).filter fun j => g.w i j != g.w j i).length
+
+/-- `issparse(A)` -/
+def RawMat.isSparse (m : RawMat) : Bool := m.kind != MatKind.ndarray
+
+/-- `A.eliminate_zeros()` -/
+def RawMat.eliminateZeros (m : RawMat) : RawMat := { m with storedZeros := false }
+
+/-- the model graph of the matrix an object stores: it exists only when no stored zero is left (the model's entries ARE
+the non-zeros; every theorem about edge queries vs csgraph-backed queries relies on it).  A constructor that forgets
+`eliminate_zeros()` therefore no longer equals `graphInit`. -/
+def RawMat.graphOf (m : RawMat) : Option Graph := if m.storedZeros then none else some m.graph
 
 namespace Src
 
